@@ -203,3 +203,46 @@ theorem pyCopyCall_operand (isView : Bool) (tr : List Rat → List Rat) (deep : 
   · split <;> rfl
 
 end MHeap
+
+namespace MHeap
+
+/-! ### `set_objective` of an object-dtype model, end to end -/
+
+theorem msep_transport {h h' : Heap} {d m : Nat} (s : MSep h d m) (hs : Same h.next h h') (hn : h.next ≤ h'.next) : MSep h' d m := by
+  obtain ⟨hg, hm, x1, x2, x3⟩ := s
+  obtain ⟨g', fp', _⟩ := hg.of_cells hn (fun x hx => hs x (cfp_lt hg x hx))
+  obtain ⟨b', _, c', v'⟩ := hm.transport hs hn
+  exact ⟨g', b', by rw [fp']; exact x1, by rw [fp', c']; exact x2, by rw [fp', v']; exact x3⟩
+
+theorem msep_new_object {h h' : Heap} {d n : Nat} (hg : CGood h d) (hs : Same h.next h h') (hn : h.next ≤ h'.next)
+    (hb : Born h.next h' n) : MSep h' d n := by
+  obtain ⟨g', fp', _⟩ := hg.of_cells hn (fun x hx => hs x (cfp_lt hg x hx))
+  have hlt := cfp_lt hg
+  obtain ⟨c, v, k1, k2, k3, k4, k5, k6, k7, k8, k9, k10⟩ := hb
+  have ec := cppOf_eq k1
+  have ev := varsOf_eq k1
+  refine ⟨g', (Born.mono ⟨c, v, k1, k2, k3, k4, k5, k6, k7, k8, k9, k10⟩ (Nat.zero_le _)), ?_, ?_, ?_⟩
+  · rw [fp']; intro hx; have := hlt _ hx; omega
+  · rw [fp', ec]; intro hx; have := hlt _ hx; omega
+  · rw [fp', ev]; intro hx; have := hlt _ hx; omega
+
+/-- `set_objective(object-dtype BQM)`: the temporary `BinaryQuadraticModel(objective, dtype=…)` is made of new cells, the call is then two
+    in-place edits of the CQM with the temporary's contents; the caller's model is separate before, during and after -/
+theorem setObjective_object_then_histories {h : Heap} {d m : Nat} (s : MSep h d m) (remap : List Rat → List Rat) (m' : Merge)
+    (es : List Edit) (ces : List CEdit) :
+    MSep (setObjective h d m true remap m') d m ∧ obs (setObjective h d m true remap m') m = obs h m ∧
+    cobs (es.foldl (fun acc e => e.run acc m) (setObjective h d m true remap m')) d = cobs (setObjective h d m true remap m') d ∧
+    obs (ces.foldl (fun acc e => e.run acc d) (setObjective h d m true remap m')) m = obs h m := by
+  have hp := call_spec s.2.1 s.2.1 (.construct m') rfl
+  have hrun : setObjective h d m true remap m' =
+      setObjective ((Call.construct m').run h m m).1 d ((Call.construct m').run h m m).2 false remap m' := rfl
+  have s1 : MSep ((Call.construct m').run h m m).1 d m := msep_transport s hp.2.1 hp.1
+  have s2 : MSep ((Call.construct m').run h m m).1 d ((Call.construct m').run h m m).2 := msep_new_object s.1 hp.2.1 hp.1 hp.2.2.1
+  rw [hrun, setObjective_as_edits s2]
+  obtain ⟨s', o'⟩ := msep_cedits s1 [CEdit.vars (fun lv => m'.w lv (labelsAt ((Call.construct m').run h m m).1 (varsOf ((Call.construct m').run h m m).1 ((Call.construct m').run h m m).2))),
+    CEdit.objective (fun _ => remap (coeffsAt ((Call.construct m').run h m m).1 (cppOf ((Call.construct m').run h m m).1 ((Call.construct m').run h m m).2)))]
+  obtain ⟨h1, h2⟩ := msep_histories s' es ces
+  have ho : obs ((Call.construct m').run h m m).1 m = obs h m := (hp.old s.2.1).2.1
+  exact ⟨s', o'.trans ho, h1, h2.trans (o'.trans ho)⟩
+
+end MHeap
